@@ -42,6 +42,10 @@ def gen_cases(tier, seed):
     for k in range(36 if tier == "quick" else 600):
         c0 = dict(cases[(k * 11) % len(cases)])
         cases.append({"family": "hostile", "nseed": int(seed * 1000003 + 950000 + k), "cfg": c0["cfg"], "hkind": 13 if k % 3 else 5})
+    # optional operands written as -1 in the source (kind 15) and operators without an options table (kind 14) that stay on the CPU
+    for k in range(16 if tier == "quick" else 300):
+        c0 = dict(cases[(k * 17) % len(cases)])
+        cases.append({"family": "hostile", "nseed": int(seed * 1000003 + 960000 + k), "cfg": c0["cfg"], "hkind": 15 if k % 4 else 14})
     return cases
 
 
